@@ -407,6 +407,25 @@ class C13(Check):
                         break
                     if not t.dead:
                         t.expected = self._snapshot(lin, p)
+                        # ---- a session that can still finish must finish with the tree of its ACCEPTED tokens: an LALR grammar has one
+                        # derivation per sentence, so whatever reductions a rejected token triggered on the way, the result of
+                        # feed_eof equals that of a session that was never offered the rejected tokens
+                        rejected = [k for k, (o, r) in enumerate(t.events) if o[0] in ('tok', 'immfeed') and r[0] == 'err']
+                        if any(r is not None and r[0] == 'pyerr' for _, r in t.events):
+                            rejected = []        # a user callback failed in the middle of a feed: the session's state is the user's business
+                        if rejected and isinstance(t.expected.get('eof'), list) and \
+                                all(o[0] in ('tok', 'immfeed', 'to_imm', 'to_mut', 'root') or (o[0] in ('step', 'exhaust', 'immexhaust') and r[0] in ('stepped', 'eof', 'exhausted', 'immexhausted'))
+                                    for o, r in t.events):
+                            clean_events = [ev for k, ev in enumerate(t.events) if k not in rejected]
+                            clean, cdiff = linear(clean_events)
+                            out.count('probe:clean-replay-without-rejected-tokens')
+                            if cdiff is None:
+                                csnap = self._snapshot(clean, p)
+                                if csnap.get('eof') != t.expected['eof']:
+                                    fail('feed-vs-parse-differs(after-rejected-token)', step=stepno, op=opname, session=sessions.index(t),
+                                         got=t.expected['eof'], want_without_rejected_tokens=csnap.get('eof'), events=[o[0] + ('!' if k in rejected else '') for k, (o, _) in enumerate(t.events)])
+                                    diff = True
+                                    break
             if diff is not None:
                 break
             # ---- ... and so does everybody else (nobody else may have moved)
